@@ -71,6 +71,16 @@ def long_session_cases(base, n):
     return out
 
 
+def foreign_session_cases(base, n):
+    """an earlier session ran in the same process; the server then feeds its recorded frames (old side label, old
+    phase) to a wormhole of the next session, right after that wormhole's key exchange"""
+    out = []
+    for i in range(n):
+        out.append({"seed": base + i, "prior_session": True,
+                    "ops": [{"victim": "AB"[i % 2], "at": 1 + (i // 2) % 3, "op": "replay-foreign", "keep": True}]})
+    return out
+
+
 def cases(tier, seed, prep=None):
     import random
     out = []
@@ -83,8 +93,10 @@ def cases(tier, seed, prep=None):
                 out.append({"seed": seed * 1000003 + 210000 + at, "ops": [one_op(rng, "AB"[at % 4 // 2], at, op)]})
         out += label_variant_cases(seed * 1000003 + 240000, 1)
         out += long_session_cases(seed * 1000003 + 260000, 16)
+        out += foreign_session_cases(seed * 1000003 + 270000, 40)
     else:
         out += long_session_cases(seed * 1000003 + 260000, 400)
+        out += foreign_session_cases(seed * 1000003 + 270000, 1200)
         out += label_variant_cases(seed * 1000003 + 240000, 12)
         k = 0
         for op in Tamper.OPS:
@@ -117,6 +129,22 @@ def run_case(spec):
         # both wormholes are also being dilated: dilate-N control records share the mailbox with the numbered phases
         cfg["dilation"] = True
         cfg["api_a"] = cfg["api_b"] = "deferred"
+    foreign = []
+    if spec.get("prior_session"):
+        # session 1: an honest exchange on another nameplate, completed and closed before session 2 begins
+        cfg1 = dict(cfg, code="%d-gamma-delta" % rng.randint(501, 900), api_a="deferred", api_b="deferred",
+                    plan_a=make_plan(rng, "A", 3, 40, gates=("any",)), plan_b=make_plan(rng, "B", 3, 40, gates=("any",)))
+        d1 = TwoParty(world, cfg1)
+        s1 = Scheduler(world, d1, strategy="random", chunking="whole")
+        s1.run(900, until=d1.all_delivered)
+        s1.drain(60.0, 3000, until=d1.all_delivered)
+        side_b1 = d1.b.w._boss._side
+        for (cid, sd, m) in world.server_cmds:
+            if m.get("type") == "add" and sd == side_b1 and m.get("phase") != "pake":
+                foreign.append({"side": side_b1, "phase": m["phase"], "body": m["body"], "server_rx": 0.0, "server_tx": 0.0})
+        d1.a.close()
+        d1.b.close()
+        s1.drain(60.0, 3000, until=lambda: d1.a.closed and d1.b.closed)
     drv = TwoParty(world, cfg)
     if dilated:
         for app in (drv.a, drv.b):
@@ -125,6 +153,7 @@ def run_case(spec):
             except Exception as e:
                 world.escapes.append((world.step, "app", "dilate()", type(e).__name__, repr(e)[:200], ""))
     adv = Tamper(world, spec["ops"])
+    adv.foreign = foreign
     if dilated:
         from ..adversary import ReorderDup
         adv.downstream = ReorderDup(world, p_dup=0.0)     # and the server hands everything out in any order
